@@ -242,7 +242,7 @@ P("C18", level_text="Theorems for all values: != is the negation of ==, <= is < 
   level_note="known finding: == is asymmetric for objects with repeated keys (reachable through MessagePack)",
   suites=lambda tier: [S.CmpSuite(cfg=DEF), S.CmpSuite(cfg={"USE_DOUBLE": 0})])
 
-P("C04", module="AJ.Props.C04All", extra=[("AJ.Props.C04", ["C04"]), ("AJ.Props.C04Hist", ["C04"]), ("AJ.Props.C04Rem", ["C04"]), ("AJ.Props.C04Copy", ["C04"]), ("AJ.Props.C14Hist", ["C04"]), ("AJ.Props.C04Deser", ["C04"])],
+P("C04", module="AJ.Props.C04All", extra=[("AJ.Props.C04", ["C04"]), ("AJ.Props.C04Hist", ["C04"]), ("AJ.Props.C04Rem", ["C04"]), ("AJ.Props.C04Copy", ["C04"]), ("AJ.Props.C14Hist", ["C04"]), ("AJ.Props.C04Deser", ["C04"]), ("AJ.Props.C04HistDeser", ["C04"])],
   level_text="Theorems about the slot-level document model (total definitions over pools, free list, next-linked chains with head/tail, extension slots, "
   "reference-counted strings) under the invariant WF = ghost layout WFG (chains acyclic, tail = last slot, slots used once, live in the pool) + string table StrOK (reference counts = number of "
   "referring slots): the abstraction to an ordered tree never runs out of fuel; array append refines list append and keeps WF; set of every scalar/string kind (incl. 64-bit extension slots, "
@@ -256,7 +256,10 @@ P("C04", module="AJ.Props.C04All", extra=[("AJ.Props.C04", ["C04"]), ("AJ.Props.
   "not flagged overflowed, exactly the source value (doubles re-normalised to float when exact; keys without repetition) in fresh or recycled slots, with WF and the frame property. "
   "history_simulates_tree(_of_flag): REFINEMENT TO THE PLAIN ORDERED TREE for whole histories - the abstract value after any history whose result is not flagged equals the run of an abstract "
   "machine over paths into a tree (add, clear, store, remove element/member, get-or-add member) that knows nothing of slots, pools or string storage; mutation_changes_only_target: every "
-  "location whose path diverges from all targets keeps its path and value; readonly_changes_nothing: lookups of present members and removals of absent ones leave the store itself unchanged. The same model is compared after every operation with the real library on "
+  "location whose path diverges from all targets keeps its path and value; readonly_changes_nothing: lookups of present members and removals of absent ones leave the store itself unchanged. "
+  "DESERIALIZATION INTO A VALUE is a step of the same refinement (deser_into_value_refines, mp_deser_into_value_refines, historyD_simulates_tree, historyD_refines, mutationD_changes_only_target): "
+  "deserializeJson / deserializeMsgPack into any location of a well-formed document puts there exactly the value-level result (for every code, partial documents included) when nothing overflows, keeps the "
+  "document well formed for every input and failure schedule, and leaves every location on a diverging path untouched; histories mix API operations, deep copies and deserializations. The same model is compared after every operation with the real library on "
   "generated non-aliasing histories: every observation AND the allocator log, on several pool geometries; the library's observations are also checked against an independent plain "
   "ordered-tree machine.",
   level_note="document-level copy-assignment/swap/move (which also exchange allocators) rest on the correspondence; a source object with a repeated key (only reachable through MessagePack input) is copied with the "
